@@ -29,7 +29,7 @@ func (p *propC13) Assumptions() []string {
 	}
 }
 func (p *propC13) ProbeNames() []string {
-	return []string{"redefinition switching byte order", "redefinition switching message", "redefinition changing field list", "16 types live at once", "compressed record after redefinition", "undefined type hit", "undefined compressed type hit", "same layout re-emitted with the other byte order", "identical definition re-emitted"}
+	return []string{"redefinition switching byte order", "redefinition switching message", "redefinition changing field list", "16 types live at once", "compressed record after redefinition", "undefined type hit", "undefined compressed type hit", "same layout re-emitted with the other byte order", "identical definition re-emitted", "same fields re-emitted with developer fields toggled"}
 }
 
 func (p *propC13) Prepare(seed uint64, tier string) int {
@@ -132,6 +132,9 @@ func (p *propC13) Check(sc *Scenario, st *Stats) []Violation {
 			l := op.Def.Local & 15
 			if old := defs[l]; old != nil {
 				kind := ""
+				if old.Global == op.Def.Global && fmt.Sprint(old.Fields) == fmt.Sprint(op.Def.Fields) && old.Arch == op.Def.Arch && (len(old.Dev) == 0) != (len(op.Def.Dev) == 0) {
+					st.Probe("same fields re-emitted with developer fields toggled")
+				}
 				if old.Global == op.Def.Global && fmt.Sprint(old.Fields) == fmt.Sprint(op.Def.Fields) && fmt.Sprint(old.Dev) == fmt.Sprint(op.Def.Dev) {
 					if old.Arch != op.Def.Arch {
 						st.Probe("same layout re-emitted with the other byte order")
@@ -241,7 +244,59 @@ func reemitDefinition(r *Rng, rs *RecStream) {
 	}
 	nd := *old
 	nd.Fields = append([][3]int{}, old.Fields...)
-	flip := r.Chance(2, 3)
+	mode := r.Intn(4)
+	flip := mode >= 2
+	oldDevLen, newDevLen := 0, 0
+	for _, fd := range old.Dev {
+		oldDevLen += fd[1]
+	}
+	if mode == 1 {
+		// same regular fields, developer fields dropped (or added): record length changes
+		flip = false
+		if len(old.Dev) > 0 {
+			nd.Dev = nil
+		} else {
+			nd.Dev = [][3]int{{r.Intn(256), r.Range(1, 9), r.Intn(4)}}
+		}
+	}
+	for _, fd := range nd.Dev {
+		newDevLen += fd[1]
+	}
+	if mode == 1 {
+		// rewrite the developer tail of the records that follow under this definition
+		fieldsLen := 0
+		for _, fd := range nd.Fields {
+			fieldsLen += fd[1]
+		}
+		ops0 := append([]Op{}, rs.Ops[:pos]...)
+		ops0 = append(ops0, Op{Def: &nd})
+		for i := pos; i < len(rs.Ops); i++ {
+			op := rs.Ops[i]
+			if d := op.Def; d != nil && d.Local&15 == l {
+				ops0 = append(ops0, rs.Ops[i:]...)
+				break
+			}
+			if dd := op.Data; dd != nil {
+				dl := dd.Local & 15
+				if dd.Comp {
+					dl = dd.Local & 3
+				}
+				if dl == l {
+					b := unhex(dd.Bytes)
+					if len(b) >= fieldsLen {
+						nb := append(append([]byte{}, b[:fieldsLen]...), r.Bytes(newDevLen)...)
+						cp := *dd
+						cp.Bytes = hexs(nb)
+						op = Op{Data: &cp}
+					}
+				}
+			}
+			ops0 = append(ops0, op)
+		}
+		_ = oldDevLen
+		rs.Ops = ops0
+		return
+	}
 	if flip {
 		if nd.Arch == "le" {
 			nd.Arch = "be"
